@@ -84,7 +84,18 @@ def run_impl(c):
     if k == "start":
         t = _timing(c)
         return vf.try_impl(lambda: read_dtm(t.start_time))
+    def _as_seq(seq):
+        # every Sequence counts: a deque, or one that only knows integer indices
+        form = c.get("seqform")
+        if form == "deque":
+            import collections
+            return collections.deque(seq)
+        if form == "intseq":
+            return _IntSeq(seq)
+        return seq
+
     def _make_irregular(seq):
+        seq = _as_seq(seq)
         # the named constructor, or the general one with copy_timestamps spelled out: the same acceptance
         via = c.get("via", "named")
         if via == "named":
@@ -103,6 +114,19 @@ def run_impl(c):
         seq = [bad(v) if j in c["at"] else mk_dtm(c["fam"], v * UNIT[c["fam"]]) for j, v in enumerate(c["l"])]
         return vf.try_impl(lambda: (_make_irregular(seq if c.get("seq", "list") == "list" else tuple(seq)), 0)[1])
     raise AssertionError(k)
+
+
+class _IntSeq(__import__("collections").abc.Sequence):
+    def __init__(self, items):
+        self._items = list(items)
+
+    def __len__(self):
+        return len(self._items)
+
+    def __getitem__(self, i):
+        if not isinstance(i, int):
+            raise TypeError("sequence index must be integer, not '%s'" % type(i).__name__)
+        return self._items[i]
 
 
 class _Duck:
@@ -219,7 +243,8 @@ def gen_cases(rng, tier):
     for fam in fams:
         for ln in range(0, 6):
             for l in itertools.product((0, 1, 2), repeat=ln):
-                cases.append({"k": "irregular", "fam": fam, "l": list(l), "via": rng.choice(["named", "named", "ctor_copy", "ctor_nocopy"])})
+                cases.append({"k": "irregular", "fam": fam, "l": list(l), "via": rng.choice(["named", "named", "ctor_copy", "ctor_nocopy"]),
+                              "seqform": rng.choice([None, None, "deque", "intseq"])})
         for _ in range(300 if not big else 5000):
             ln = rng.randrange(3, 12)
             mode = rng.randrange(4)
